@@ -25,6 +25,9 @@ type c01Client struct {
 	// TAM: v5 Topic Alias Maximum declared in CONNECT (0 = absent): the broker may replace topic names by aliases on this
 	// connection; the client resolves them like a real client does and every message must resolve to the topic it was published to
 	TAM int `json:"topic_alias_max,omitempty"`
+	// MPS: v5 Maximum Packet Size declared in CONNECT (0 = absent; never together with TAM). A message reaches this
+	// client iff the PUBLISH packet that carries it is at most MPS bytes long - exactly at the limit included.
+	MPS int `json:"max_packet_size,omitempty"`
 }
 
 type c01Pub struct {
@@ -33,6 +36,7 @@ type c01Pub struct {
 	QoS    byte   `json:"qos"`
 	Retain bool   `json:"retain,omitempty"`
 	Props  int    `json:"props,omitempty"` // bit set: 1 payload-format, 2 content-type, 4 response-topic, 8 correlation, 16 user
+	Pad    int    `json:"pad,omitempty"`   // the payload (= the message's uid) is padded with this many dots
 }
 
 type c01Scen struct {
@@ -56,6 +60,9 @@ func genC01(t *rapid.T) c01Scen {
 		if c.V == 5 {
 			c.RM = rapid.SampledFrom([]int{0, 0, 0, 1, 2, 5}).Draw(t, "rm")
 			c.TAM = rapid.SampledFrom([]int{0, 0, 1, 2, 3}).Draw(t, "tam")
+			if c.TAM == 0 && rapid.IntRange(0, 2).Draw(t, "mps") == 0 {
+				c.MPS = rapid.IntRange(60, 160).Draw(t, "mps_value")
+			}
 		}
 		ns := rapid.IntRange(0, 4).Draw(t, "nsubs")
 		for j := 0; j < ns; j++ {
@@ -78,6 +85,13 @@ func genC01(t *rapid.T) c01Scen {
 			ph = append(ph, c01Pub{By: rapid.IntRange(-1, nc-1).Draw(t, "by"), Topic: genTopicName(t, "topic"),
 				QoS: byte(rapid.IntRange(0, 2).Draw(t, "qos")), Retain: rapid.IntRange(0, 3).Draw(t, "retain") == 0,
 				Props: rapid.IntRange(0, 31).Draw(t, "props")})
+			// with a Maximum Packet Size somewhere, payloads are padded so that packet sizes straddle it
+			for _, cl := range s.Clients {
+				if cl.MPS > 0 {
+					ph[len(ph)-1].Pad = rapid.IntRange(0, 130).Draw(t, "pad")
+					break
+				}
+			}
 		}
 		s.Phases = append(s.Phases, ph)
 		var lv []int
@@ -248,6 +262,12 @@ func runC01(s c01Scen, c *ev.Case) *ev.Violation {
 			}
 			co.Props.TopicAliasMax = u16p(uint16(cs.TAM))
 			co.ResolveAliases = true
+		} else if cs.V == 5 && cs.MPS > 0 {
+			if co.Props == nil {
+				co.Props = &mw.Props{}
+			}
+			co.Props.MaxPacketSize = u32p(uint32(cs.MPS))
+			c.Label("subscriber_with_maximum_packet_size")
 			c.Label("subscriber_accepts_topic_aliases")
 		}
 		cl, ack, err := b.Connect(co)
@@ -294,6 +314,46 @@ func runC01(s c01Scen, c *ev.Case) *ev.Violation {
 		ambiguous := map[string]bool{}
 		for _, r := range sent {
 			exp, amb := expectedDeliveries(s.Mode, subs[i], i, r.pub, r.uid)
+			if mps := s.Clients[i].MPS; mps > 0 && s.Clients[i].V == 5 && s.Clients[i].TAM == 0 {
+				// the packet that would carry each copy, as the independent codec encodes it
+				eff := r.pub.Props
+				if r.pub.By >= 0 && s.Clients[r.pub.By].V != 5 {
+					eff = 0
+				}
+				var fit []delivery
+				for _, d := range exp {
+					pk := &mw.Packet{Type: mw.PUBLISH, Topic: r.pub.Topic, QoS: d.QoS, Retain: d.Retain, Payload: []byte(d.UID), Props: pubProps(eff)}
+					if d.QoS > 0 {
+						pk.PacketID = 1
+					}
+					if len(d.SubIDs) > 0 {
+						if pk.Props == nil {
+							pk.Props = &mw.Props{}
+						} else {
+							cp := *pk.Props
+							pk.Props = &cp
+						}
+						pk.Props.SubscriptionIDs = d.SubIDs
+					}
+					raw, err := mw.Encode(pk, mw.V5)
+					if err != nil {
+						return harnessErr("encode expected packet: %v", err)
+					}
+					switch n := len(raw); {
+					case n <= mps:
+						fit = append(fit, d)
+						if n >= mps-3 {
+							c.Label("delivery_at_most_3_bytes_below_maximum_packet_size")
+						}
+						if n == mps {
+							c.Label("delivery_exactly_at_maximum_packet_size")
+						}
+					default:
+						c.Label("copy_larger_than_maximum_packet_size")
+					}
+				}
+				exp = fit
+			}
 			want = append(want, exp...)
 			if amb {
 				ambiguous[r.uid] = true
@@ -340,6 +400,9 @@ func runC01(s c01Scen, c *ev.Case) *ev.Violation {
 				d.SubIDs = p.Props.SubscriptionIDs
 			}
 			got = append(got, d)
+			if mps := s.Clients[i].MPS; mps > 0 && s.Clients[i].V == 5 && len(p.Raw) > mps {
+				return ev.Violf("C01.maximum-packet-size", "client %d declared Maximum Packet Size %d and received a PUBLISH of %d bytes", i, mps, len(p.Raw))
+			}
 			// the topic the message arrives under (topic aliases resolved as the client would) is the one it was published to
 			topic := p.Topic
 			if p.Props != nil && p.Props.TopicAlias != nil {
@@ -426,7 +489,7 @@ func runC01(s c01Scen, c *ev.Case) *ev.Violation {
 				continue
 			}
 			seq[p.By]++
-			r := sentRec{p, fmt.Sprintf("%d:%03d", p.By, seq[p.By])}
+			r := sentRec{p, fmt.Sprintf("%d:%03d", p.By, seq[p.By]) + strings.Repeat(".", p.Pad)}
 			if _, ok := by[p.By]; !ok {
 				order = append(order, p.By)
 			}
